@@ -10,7 +10,8 @@ Recs == ndJsonDeserialize(IOEnv.TRACE)
 JLData(r) ==
   LET ref == EncLData(r.f)
       encOk == r.panic = 0 /\ r.gb = ref
-      decOk == r.gok = 1 /\ r.gd = Canon(r.f) /\ r.gn = Len(r.gb)
+      \* (gdu: the same bytes decoded into a receiver that held an earlier frame - a reused value ends up as a fresh one)
+      decOk == r.gok = 1 /\ r.gd = Canon(r.f) /\ r.gdu = r.gd /\ r.gn = Len(r.gb)
   IN (IF encOk THEN {} ELSE {"C11.EncLayout"})
      \cup (IF ~encOk \/ decOk THEN {} ELSE {"C11.DecLayout"})
      \cup (IF r.panic = 0 /\ r.size = Len(ref) THEN {} ELSE {"C15.SizeExact"})
@@ -110,6 +111,9 @@ JDptRT(r) ==
      \cup (IF acc /\ ~wrongLen /\ ~InRange(r.main, r.sub, r.v1) THEN {"C08.InRange"} ELSE {})
      \cup (IF r.op = "rt" /\ acc /\ r.ok2 # 1 THEN {"C06.Reaccepted"} ELSE {})
      \cup (IF r.op = "rt" /\ acc /\ r.ok2 = 1 /\ r.v1 # r.v2 THEN {"C06.SameValue"} ELSE {})
+     \* ... and the value is the payload's: a receiver that held an earlier value decodes it to the same value (r.reuse = 1:
+     \* the harness decoded the payload into a long-lived receiver as well and got another value, verdict or re-encoding)
+     \cup (IF r.op = "rt" /\ acc /\ r.reuse = 1 THEN {"C06.SameValue"} ELSE {})
      \cup (IF r.op = "rt" /\ acc /\ ~wrongLen /\ Exact(f) /\ r.b2 # CanonB(f, r.b) THEN {"C06.ByteIdentical"} ELSE {})
 
 \* ---- C07: datapoint encoding ------------------------------------------------------------------
